@@ -179,6 +179,47 @@ def random_plan(rng: random.Random, job: str, variant: int, n: int, with_console
     return cmds[:n]
 
 
+def perturbed_roundtrip(store_ckpt: dict) -> list:
+    """every numeric / boolean leaf of every recorded entity, moved away from its recorded value one entity at a time,
+    must survive `Checkpoint(...).restore().save()`: a field that restore drops (an alias, an excluded or renamed
+    field) resets to its default on every resume, whatever state the plans happen to reach.  Values an entity's own
+    validation refuses are skipped.  -> list of {entity, cls, field path, recorded (perturbed), after restore}"""
+    import copy
+    from simaple.simulate.base import Checkpoint
+    bad = []
+
+    def leaves(x, path=()):
+        if isinstance(x, dict):
+            for k, v in x.items():
+                yield from leaves(v, path + (k,))
+        elif isinstance(x, list):
+            for i, v in enumerate(x):
+                yield from leaves(v, path + (i,))
+        elif isinstance(x, bool) or isinstance(x, (int, float)):
+            yield path, x
+
+    def put(x, path, v):
+        for p in path[:-1]:
+            x = x[p]
+        x[path[-1]] = v
+
+    for name, ent in store_ckpt.items():
+        for path, val in list(leaves(ent.get("payload", {}))):
+            for nv in ([not val] if isinstance(val, bool) else [val + 1, val + 2] if isinstance(val, int)
+                       else [val + 1.25, val + 3.5]):
+                d2 = {name: copy.deepcopy(ent)}
+                put(d2[name]["payload"], path, nv)
+                try:
+                    again = Checkpoint(store_ckpt=d2).restore().save()
+                except Exception:  # noqa: BLE001 -- the entity's own validation refuses this value
+                    continue
+                if again != d2:
+                    bad.append({"entity": name, "cls": ent.get("cls"), "field": ".".join(map(str, path)),
+                                "recorded": nv, "after_restore": again.get(name, {}).get("payload")})
+                break
+    return bad
+
+
 def refused_commands() -> list:
     """commands the engine REFUSES with an exception (on the unchanged tree without any effect: no log, no clock
     change, the pending events stay): a caller that catches the error -- a plan editor -- goes on with the session"""
